@@ -9,9 +9,10 @@
    panicked, the tree counter says 2 and exactly 1 frame is free: the accounting invariant is broken (and stays
    broken: tree_stats over-reports, validate() fails).
 
-   This is outside the stated properties (C03 / C04 quantify over concurrent get / put / drain / targeted allocations;
-   C15 over sequential histories), so it is documented as an observation, not reported as a violation; the harness
-   scenario `u-online-vs-put` (schedrun --api upper) shows the same end state on the compiled code. *)
+   C04 quantifies over the interleavings of C01, which contain concurrent tree changes: the scenario group `online-race`
+   (schedrun --api upper --scenario online-race: u-online-vs-put, u-online-vs-get-noslot, ...) shows the same end state
+   on the compiled code; it is known finding D16 (DESIGN.md 11.2, known_findings.json).  C03 quantifies over concurrent
+   get / put / drain / targeted allocations only, C15 over sequential histories. *)
 From LLF Require Import Base Row Bitfield Lower Spec Sorted Upper UpperInvDef UpperPrims LowerMachine ConcBase ConcInvDef
   Policies UpperMachine UpperConcInvDef UpperConcProps.
 
